@@ -37,12 +37,17 @@ CutoutRef(b, h, w) ==
           IF InImg(h, w, b[3] + j, b[1] + i) THEN <<"d", Data(b[3] + j, b[1] + i)>> ELSE <<"f">>]]
 (* weighted cutout: data*weight (weights in halves: value = data*w/2) where inside the image and the  *)
 (* weight is positive; elsewhere "z": 0 when the fill value is 0, otherwise the statement leaves it  *)
-(* open between the fill value, fill*weight and 0                                                    *)
+(* open between the fill value, fill*weight and 0 - except "zf", a cell outside the image whose      *)
+(* weight is 0, which holds the fill value under every reading (cutout pixels outside the image take *)
+(* the fill value; the weight does not scale it)                                                     *)
 MultiplyRef(b, pat, h, w) ==
   IF ~Overlap(b, h, w) THEN None
   ELSE [j \in 0..(NY(b) - 1) |-> [i \in 0..(NX(b) - 1) |->
           IF InImg(h, w, b[3] + j, b[1] + i) /\ Weight(pat, j, i) > 0
-            THEN <<"d", (Data(b[3] + j, b[1] + i) * Weight(pat, j, i)) \div 2>> ELSE <<"z">>]]
+            THEN <<"d", (Data(b[3] + j, b[1] + i) * Weight(pat, j, i)) \div 2>>
+            ELSE IF ~InImg(h, w, b[3] + j, b[1] + i) /\ Weight(pat, j, i) = 0
+                   THEN <<"zf">>       \* outside the image and outside the mask: the fill value itself, both readings agree
+                   ELSE <<"z">>]]
 Masked(mk, y, x) == mk = "alt" /\ (x + y) % 2 = 1
 ValuesRef(b, pat, h, w, mk) ==       \* row-major over the common pixels
   LET pts == {<<y, x>> \in (0..(h - 1)) \X (0..(w - 1)) : InBox(b, y, x) /\ Weight(pat, y - b[3], x - b[1]) > 0 /\ ~Masked(mk, y, x)}
@@ -79,6 +84,7 @@ MultiplyImpl(b, pat, h, w) ==
   LET c == CutoutImpl(b, h, w) IN
   IF c = None THEN None
   ELSE [j \in 0..(NY(b) - 1) |-> [i \in 0..(NX(b) - 1) |->
-          IF Weight(pat, j, i) = 0 \/ c[j][i] = <<"f">> THEN <<"z">> ELSE <<"d", (c[j][i][2] * Weight(pat, j, i)) \div 2>>]]
+          IF Weight(pat, j, i) = 0 /\ c[j][i] = <<"f">> THEN <<"zf">>
+          ELSE IF Weight(pat, j, i) = 0 \/ c[j][i] = <<"f">> THEN <<"z">> ELSE <<"d", (c[j][i][2] * Weight(pat, j, i)) \div 2>>]]
 
 =============================================================================
